@@ -14,8 +14,9 @@ ASSUME = [
     "rx is observed when the limited session opens the frame (pass-through wrapper around the session's payload AEAD, "
     "first action of recvDataFromRemote after rxWait); plain (no AEAD) sessions share the same switchboard code and are "
     "not recorded",
-    "one user = one LimitedValve shared by its sessions (MakeValve result passed to every SessionConfig); that "
-    "server.ActiveUser hands the same valve to each session (userpanel.go / activeuser.go) is read, not exercised here",
+    "one user = one LimitedValve: the multiplex scenarios pass one MakeValve result to every SessionConfig; the server scenarios "
+    "obtain the sessions from userPanel.GetUser / ActiveUser.GetSession with a stub user manager that reports the rates "
+    "(the handshake and the bolt database in front of it belong to C06/C07/C16/C18)",
     "time is the virtual clock of testing/synctest: sleepers wake exactly on time. On a real clock a sleeper that wakes late "
     "sends together with the next one: TLC refutes the bound for Prompt = FALSE (excess <= one message per waiter); "
     "scheduling latency is outside the statement",
@@ -50,13 +51,15 @@ def cex_field(block, name):
 
 def run(ctx):
     q = ctx.quick()
+    if os.environ.get("VERIF_C19_SKIP_MC") == "1":   # development aid (mutant runs): the model runs do not depend on /repo
+        return run_impl(ctx, q, ThreadPoolExecutor(max_workers=6), {}, {})
     pool = ThreadPoolExecutor(max_workers=6)
     wk = 2 if q else 4
     # 1. the design model, exhaustively on the discrete clock (one run sweeps quanta x fill intervals x bursts x backlog)
     pos = {}
     if q:
         pos["mc_main"] = pool.submit(mc, ctx, "mc_main", W2, "{1, 2}", "{1, 2}", "{3, 4}", "{0, 1}", "{1, 2, 3}", 8, workers=4)
-        pos["mc_intervals"] = pool.submit(mc, ctx, "mc_intervals", W2, "{1, 2}", "{1, 2}", "{3}", "{0, 1}", "{1, 3}", 5, history=True,
+        pos["mc_intervals"] = pool.submit(mc, ctx, "mc_intervals", W2, "{1, 2}", "{1, 2}", "{3}", "{0, 1}", "{1, 3}", 4, history=True,
                                           invs="TypeOK UpperVQ UpperIntervals NotStarved")
         pos["mc_lowrate"] = pool.submit(mc, ctx, "mc_lowrate", W2, "{1}", "{1, 2}", "{2, 3}", "{0, 1}", "{1, 3, 5}", 10, relax=True)
     else:
@@ -78,20 +81,28 @@ def run(ctx):
         # documents the virtual-clock assumption: a sleeper that wakes late bunches its message with the next ones
         "neg_late_wakeup": pool.submit(mc, ctx, "neg_late_wakeup", W2, "{1, 2}", "{1, 2}", "{3}", "{0}", "{1, 2, 3}", 6, prompt=False, **neg_args),
     }
-    # 3. the real code on the virtual clock
+    return run_impl(ctx, q, pool, pos, neg)
+
+
+def run_impl(ctx, q, pool, pos, neg):
+    # 3. the real code on the virtual clock: multiplex scenarios, and the server's own wiring of the user's valve
     nfiles = 3 if q else 6
+    f_user = pool.submit(lib.run_go, ctx, "server", "TestVerifC19User", None, 1500)
     tr = lib.run_go(ctx, "multiplex", "TestVerifC19Trace", env={"VERIF_C19_FILES": nfiles}, timeout=1500)
     lib.collect_go(ctx, tr)
-    go_keys = sorted({v["key"] for v in tr.get("violations", [])})
+    us = f_user.result()
+    lib.collect_go(ctx, us)
+    go_keys = sorted({v["key"] for v in tr.get("violations", []) + us.get("violations", [])})
     st = tr["stats"]
-    ctx.log("harness: %d scenarios, %d tx + %d rx events, %d virtual s, violations %s" % (
-        st.get("scenarios", 0), st.get("events_tx", 0), st.get("events_rx", 0), st.get("virtual_s", 0), go_keys))
-    if st.get("dead_scenarios", 0):
+    ctx.log("harness: %d scenarios, %d tx + %d rx events, %d virtual s; server.ActiveUser: %d scenarios, %d events; violations %s" % (
+        st.get("scenarios", 0), st.get("events_tx", 0), st.get("events_rx", 0), st.get("virtual_s", 0),
+        us["stats"].get("scenarios", 0), us["stats"].get("trace_events", 0), go_keys))
+    if st.get("dead_scenarios", 0) or us["stats"].get("dead_scenarios", 0):
         raise lib.Inconclusive("a scenario moved no data: %s" % tr.get("notes"))
     # 4. TLC validates the recorded traces against the bound (every interval, one pass)
     vals = []
-    for i in range(nfiles):
-        p = os.path.join(tr["_out_dir"], "trace%d.ndjson" % i)
+    paths = [os.path.join(tr["_out_dir"], "trace%d.ndjson" % i) for i in range(nfiles)] + [os.path.join(us["_out_dir"], "trace_user.ndjson")]
+    for i, p in enumerate(paths):
         if os.path.getsize(p) > 0:
             vals.append((p, pool.submit(validate, ctx, p, "trace%d" % i)))
     nev, accepted, tlc_keys = 0, 0, []
@@ -116,7 +127,7 @@ def run(ctx):
                 "key": key,
                 "what": "TLC: invariant %s of TokenBucketTrace fails on the recorded execution of scenario %s at event %s "
                         "(q = %s, dpre = %s, parameters %s)" % (v.violated, scn, ev, cex_field(last, "q"), cex_field(last, "dpre"), reset),
-                "replay": {"scenario": scenario_of(tr, scn), "tlc_state": last, "trace_tail": lines[max(0, line - 12):line]}})
+                "replay": {"scenario": scenario_of(tr, scn), "scenario_id": scn, "tlc_state": last, "trace_tail": lines[max(0, line - 12):line]}})
         else:
             raise lib.Inconclusive("recorded trace %s is not well-formed for TokenBucketTrace (rejected at line %s): %s" % (
                 p, v.rejected_at, lines[v.rejected_at - 1] if v.rejected_at and v.rejected_at <= len(lines) else "?"))
@@ -134,14 +145,15 @@ def run(ctx):
             raise lib.Inconclusive("negative configuration %s was not refuted by TLC (violated=%s): the bound is vacuous" % (tag, r.violated))
         ctx.log("%s: refuted (%s) after %d states" % (tag, r.violated, r.distinct))
     cov = {
-        "evaluations": tr["evaluations"],
-        "distinct_nontrivial": tr["distinct_nontrivial"],
+        "evaluations": tr["evaluations"] + us["evaluations"],
+        "distinct_nontrivial": tr["distinct_nontrivial"] + us["distinct_nontrivial"],
         "rule": "one evaluation = one scenario (rates tx/rx from {2e3,2e4,1e5} B/s, 1-3 sessions x 1-4 connections x 1-3 streams sharing "
                 "one valve, write sizes {1,100,1400,16000, 3 frames}, backlogged / bursty / mixed writers, TLS-record or message links, "
                 "3 AEADs, 10-40 virtual seconds) run on the real Session/switchboard/ratelimit code in a synctest bubble; every pair of "
                 "recorded events is an interval checked by the driver, and TLC checks every interval through the virtual-queue invariant; "
+                "plus 2 (thorough: 4) scenarios whose sessions are made by server.userPanel.GetUser / ActiveUser.GetSession; "
                 "non-trivial = the bucket ran dry (more than one burst passed); distinct = distinct scenario parameters",
-        "samples": tr["samples"],
+        "samples": tr["samples"] + us["samples"],
         "traces_validated_against_impl": accepted,
         "trace_events_validated": nev,
         "exhaustive": True,
@@ -149,7 +161,7 @@ def run(ctx):
                             "1-%d waiters up to the clock horizon; the recorded scenarios are a sample" % (2 if q else 3),
         "negative_configs_refuted": sorted(neg.keys()),
         "checker_cmd": "tlc TokenBucket.tla (TokenBucket_mc.cfg) / TokenBucketTrace.tla + go test -run TestVerifC19Trace",
-        "harness_stats": st,
+        "harness_stats": {"multiplex": st, "server_activeuser": us["stats"]},
     }
     return lib.finish(ctx, LEVEL, cov, ASSUME)
 
